@@ -384,7 +384,7 @@ func runC09(c *vx.Ctx) {
 	if !c.Wants("header-rules") {
 		return
 	}
-	c.Rule = "tree of all block-order words over {z,r,p} up to depth D on a real prime/region/zone node; at every node every single-field deviation (31 fields of Header / WorkObjectHeader) of the freshly built child is re-hashed, re-sealed and offered to VerifyHeader of each chain the block belongs to; outcome class = chain x field x rejection reason"
+	c.Rule = "tree of all block-order words over {z,r,p} up to depth D on a real prime/region/zone node; at every node every single-field deviation (31 fields of Header / WorkObjectHeader) of the freshly built child is re-hashed, re-sealed and offered to VerifyHeader of each chain the block belongs to; outcome class = chain x field x rejection reason; every refused deviation again after it was stored and looked up as a candidate block; forks: all ordered pairs of branches over block-time increments that diverge at their first block (side-branch verification, switch, next own block)"
 	c.Assume("scaled protocol constants: " + fmt.Sprint(core.VScaled))
 	c.Assume("injected PoW engine: deviations are re-sealed with a valid pow hash, so rejections come from the header rules, not from the seal")
 	c.Assume("fork regime R1 before the KawPow fork: share-difficulty fields must be absent; their post-fork derivation rules are not driven")
